@@ -144,7 +144,13 @@ def _rule_R13(text, args):
     return rx.subn(lambda m: "vstub_%s_to_be_bytes(%s)" % (ty, m.group("e")), text)
 
 
-RULES = {"R13": _rule_R13, "R1": _rule_R1, "R4": _rule_R4, "R4rev": _rule_R4rev, "R11": _rule_R11, "R8": _rule_R8, "R7": _rule_R7,
+def _rule_R14(text, args):
+    # for t in &E[..n] {   ->   for vi in it: 0..n { let t = &E[vi];     (Verus: iteration over a sub-slice unsupported)
+    rx = re.compile(r"for\s+(?P<pat>" + IDENT + r")\s+in\s+&(?P<e>" + IDENT + r")\[\s*\.\.(?P<n>[^\]]+)\]\s*\{")
+    return rx.subn(lambda m: "for vi__ in it: 0..(%s) /*@loophead*/ { let %s = &%s[vi__];" % (m.group("n").strip(), m.group("pat"), m.group("e")), text)
+
+
+RULES = {"R14": _rule_R14, "R13": _rule_R13, "R1": _rule_R1, "R4": _rule_R4, "R4rev": _rule_R4rev, "R11": _rule_R11, "R8": _rule_R8, "R7": _rule_R7,
          "R9": _rule_R9, "R12": _rule_R12}
 
 
